@@ -179,8 +179,11 @@ func runEquip(c *ctx) error {
 		for i, k := range []string{"temp", "gca2", "gca", "x1"} {
 			s.Authorize(s.BuildAuth(hx.AuthSpec{ID: uint32(20 + i), Key: fmt.Sprintf("h%d", i), Cap: 10, Signer: k}))
 			s.AuthorizeServer(s.BuildServer(hx.ServerSpec{Key: fmt.Sprintf("sv%d", i), Loc: "127.0.0.1", Ports: [3]uint16{1, 1, 1}, Signer: k}))
-			inner := "gca2"
-			s.Migrate(s.BuildMigration("h2", "gca2", 77, []hx.ServerSpec{{Key: "nsv", Loc: "10.0.0.1", Ports: [3]uint16{5, 6, 7}, Signer: inner}}, k))
+			// new servers signed by the new GCA (valid), by the current GCA and unsigned (invalid)
+			for _, inner := range []string{"gca2", "gca", ""} {
+				s.Migrate(s.BuildMigration("h2", "gca2", 77, []hx.ServerSpec{{Key: "nsv", Loc: "10.0.0.1", Ports: [3]uint16{5, 6, 7}, Signer: "gca2"},
+					{Key: "nsv2", Loc: "10.0.0.2", Ports: [3]uint16{5, 6, 7}, Signer: inner}}, k))
+			}
 		}
 		s.QueryServers()
 	}
